@@ -984,6 +984,22 @@ pub(crate) fn tokens_to_operator_tree<NumericTypes: EvalexprNumericTypes>(
         }
 
         last_token_is_rightsided_value = token.is_rightsided_value();
+
+        #[cfg(feature = "verif-hooks")]
+        crate::verif::parser_step(|| {
+            root_stack
+                .iter()
+                .map(|node| crate::verif::StackEntryShape {
+                    operator: format!("{:?}", node.operator())
+                        .split(|c: char| !c.is_alphanumeric())
+                        .next()
+                        .unwrap_or_default()
+                        .to_string(),
+                    is_sequence: node.operator().is_sequence(),
+                    children: node.children().len(),
+                })
+                .collect()
+        });
     }
 
     // In the end, all sequences are implicitly terminated
